@@ -158,6 +158,38 @@ def run(pid, tier, replay=None):
         if not rec.events[-1]["blk"]["evok"]:
             chk.violation("C18:recorded_block_evidence_not_reproduced_with_real_scrypt", {"file": fn})
     chk.sample({"source": "recorded real blocks", "files": names})
+    # (c2) the same real blocks when a competing block (mined once with the real scrypt, data/competitor_h2.json) arrived first:
+    #      the real blocks then sit on a side branch until they overtake it; all of them must still pass full validation
+    import json as _json
+    comp_path = os.path.join(os.path.dirname(os.path.dirname(os.path.abspath(__file__))), "data", "competitor_h2.json")
+    if os.path.exists(comp_path):
+        comp = Block.deserialize(bytes.fromhex(_json.load(open(comp_path))["block_hex"]))
+        w3 = sk.World(cfg2, keys)
+        g3 = Block.deserialize(genesis_block_data)
+        w3.by_abs[0] = g3
+        w3.register(g3)
+        rec2 = ledger_drv.Recorder(w3, 9001, full=True, snapshots=False)
+        rec2.start(g3)
+        real_blocks = [Block.deserialize(open(os.path.join(d, fn), "rb").read()) for fn in names]
+        seq = [("real", real_blocks[0]), ("competitor", comp)] + [("real", b) for b in real_blocks[1:]]
+        for kind, b in seq:
+            res = rec2.add(b, b.timestamp + 1, validated=True, label={kind: b.height})
+            chk.case(("fork", kind, b.height), nontrivial=True)
+            if kind == "real" and res != "ok":
+                chk.violation("C18:recorded_real_block_rejected_by_full_validation",
+                              {"height": b.height, "rule": rec2.events[-1]["rule"], "scenario": "a competing block at height 2 arrived first"})
+            if kind == "competitor" and res != "ok":
+                chk.notes.append("the stored competing block is no longer accepted (%s): fork scenario skipped" % rec2.events[-1]["rule"])
+                break
+        else:
+            if rec2.cs.current_chain_hash != real_blocks[-1].hash():
+                chk.violation("C18:node_does_not_end_on_the_real_chain", {"head_height": rec2.cs.head().height})
+        verdicts2, drifts2, r4 = ledger_drv.validate([rec2.trace()], cfg2, {"C05", "C18"}, workers=1)
+        chk.states += r4.distinct
+        chk.traces_validated += 1
+        for t_id, (clause, line) in verdicts2.items():
+            if clause != "ok":
+                chk.violation("C18:real_block_fails_header_rule(%s)" % clause, {"event": rec2.events[line - 1]["blk"]["height"], "scenario": "fork"}, {"clause": clause})
     # header rules of the real blocks re-judged by TLC with the real constants
     verdicts, drifts, r3 = ledger_drv.validate([rec.trace()], cfg2, {"C05", "C18"}, workers=1)
     chk.states += r3.distinct
